@@ -3,6 +3,7 @@
 Contracts on apmath.renormalize (eager and functional; also reached from add/subtract/multiply/square) with exact integer
 bookkeeping of sums, an independent overlap predicate, and error bounds for products relative to the leading term.
 """
+import warnings
 import numpy
 
 from .. import exact, gen, contracts
@@ -465,6 +466,55 @@ def task_emitted(params, rec):
             rec.violation("emitted-functional-length", dict(dtype=params["dtype"], n=n, got=len(out)))
 
 
+def task_emitted_binary(params, rec):
+    """traced functional add / subtract (3 + 2 words, 2 + 2 words) emitted for NumPy: exact like the eager form whenever the type's own size cap is
+    not reached (the traced dispatch builds one result per dtype and selects between them)"""
+    import random
+    import functional_algorithms as fa
+    from functional_algorithms import apmath, rewrite, targets
+
+    dt = getattr(numpy, params["dtype"])
+    f_ = exact.fmt(dt)
+    cap = {numpy.float16: 4, numpy.float32: 12, numpy.float64: 40}[dt]
+    rnd = random.Random(f"c12eb-{params['seed']}-{params['dtype']}")
+    for op, sign in (("add", 1), ("subtract", -1)):
+        for n1, n2 in ((3, 2), (2, 2), (1, 3)):
+            if n1 + n2 > cap:
+                continue
+            names = [f"a{i}" for i in range(n1)] + [f"b{i}" for i in range(n2)]
+            src = "def tr(ctx, %s):\n    return apmath.%s(ctx, [%s], [%s], functional=True)\n" % (", ".join(names), op, ", ".join(names[:n1]), ", ".join(names[n1:]))
+            ns = dict(apmath=apmath)
+            exec(src, ns)
+            ctx = fa.Context(paths=[fa.algorithms])
+            try:
+                with warnings.catch_warnings():
+                    warnings.simplefilter("ignore")
+                    g = ctx.trace(ns["tr"], *([dt] * (n1 + n2))).rewrite(targets.numpy, rewrite)
+                    fn = targets.numpy.as_function(g, debug=0)
+            except Exception as e:
+                rec.count("emitted-binary:refused:" + type(e).__name__)
+                continue
+            for _ in range(params["n"]):
+                x, _p = gen_expansion(rnd, dt, n=n1)
+                y, _p = gen_expansion(rnd, dt, n=n2)
+                x, y = (x + [dt(0)] * n1)[:n1], (y + [dt(0)] * n2)[:n2]
+                with warnings.catch_warnings():
+                    warnings.simplefilter("ignore")
+                    with numpy.errstate(all="ignore"):
+                        try:
+                            r = [dt(v) for v in fn(*x, *y)]
+                        except Exception as e:
+                            rec.violation("emitted-binary-exception", dict(dtype=params["dtype"], op=op, x=list(x), y=list(y), exc=f"{type(e).__name__}: {e}"[:200]))
+                            break
+                rec.count("evaluations")
+                if not all(numpy.isfinite(v) for v in r):
+                    continue
+                rec.count("judged:emitted-binary")
+                if usum(x, dt) + sign * usum(y, dt) != usum(r, dt):
+                    rec.violation(f"emitted-functional-{op}-not-exact", dict(dtype=params["dtype"], x=list(x), y=list(y), result=list(r)))
+                    break
+
+
 def task_f16_pairs(params, rec):
     """float16 length-2, functional safe renormalize on all finite pairs (vectorised through NumpyContext)"""
     from functional_algorithms import apmath, utils
@@ -499,7 +549,7 @@ def task_f16_pairs(params, rec):
     rec.sample(dict(kind="float16 pairs", x_first=xs[0], count=int(xs.size * finv.size)))
 
 
-TASKS = {"expansions": task_expansions, "emitted": task_emitted, "f16_pairs": task_f16_pairs}
+TASKS = {"expansions": task_expansions, "emitted": task_emitted, "emitted_binary": task_emitted_binary, "f16_pairs": task_f16_pairs}
 SHARD_TIMEOUT = {"quick": 1500, "thorough": 7200}
 
 
@@ -510,6 +560,7 @@ def plan(tier, seed):
         for s in range(nsh):
             t.append(("expansions", dict(dtype=dtn, seed=seed, shard=s, n=n)))
         t.append(("emitted", dict(dtype=dtn, seed=seed, n=3000 if tier == "quick" else 200000)))
+        t.append(("emitted_binary", dict(dtype=dtn, seed=seed, n=150 if tier == "quick" else 6000)))
     if tier == "quick":
         t.append(("f16_pairs", dict(start=seed % 997, step=997)))
     else:
